@@ -85,6 +85,8 @@ type StreamClient struct {
 	Closes     []uint16
 	Observers  map[uint16]couchbase.Observer
 	OpenCh     chan uint16     // signalled on every OpenStream call
+	PingErr    error
+	openNow    map[uint16]bool
 	HighColl   map[uint16]uint64 // answer to GetVBucketSeqNos(true) when set; High answers GetVBucketSeqNos(false)
 	EndOnClose bool          // CloseStream is followed by the end notification of that stream (servers older than 5.5.0, via gocbcore)
 	EndLate    time.Duration // ... delivered this much after CloseStream has returned (0: before it returns)
@@ -101,9 +103,27 @@ type StreamClient struct {
 func (c *StreamClient) Ping() (*models.PingResult, error) {
 	c.mu.Lock()
 	c.Pings++
+	err := c.PingErr
 	c.mu.Unlock()
 	c.Trace.Add(TraceEv{Kind: "ping"})
+	if err != nil {
+		return &models.PingResult{MemdEndpoint: "m"}, err
+	}
 	return &models.PingResult{}, nil
+}
+
+// SetPingErr makes every later Ping fail with err (nil: succeed again).
+func (c *StreamClient) SetPingErr(err error) {
+	c.mu.Lock()
+	c.PingErr = err
+	c.mu.Unlock()
+}
+
+// OpenOnServer says whether the last thing the server heard about the stream of vb was a successful open.
+func (c *StreamClient) OpenOnServer(vb uint16) bool {
+	c.mu.Lock()
+	defer c.mu.Unlock()
+	return c.openNow[vb]
 }
 func (c *StreamClient) DcpClose() {
 	c.mu.Lock()
@@ -186,6 +206,10 @@ func (c *StreamClient) OpenStream(vb uint16, _ map[uint32]string, o *models.Offs
 	c.Trace.Add(TraceEv{Kind: "openreq", Vb: vb})
 	err := c.OpenErr[vb]
 	if err == nil {
+		if c.openNow == nil {
+			c.openNow = map[uint16]bool{}
+		}
+		c.openNow[vb] = true
 		c.Observers[vb] = ob
 		// what the real client does on success (client.go OpenStream / openStreamWithRollback)
 		ob.SetVbUUID(gocbcore.VbUUID(c.UUID[vb]))
@@ -201,6 +225,9 @@ func (c *StreamClient) OpenStream(vb uint16, _ map[uint32]string, o *models.Offs
 func (c *StreamClient) CloseStream(vb uint16) error {
 	c.mu.Lock()
 	c.Closes = append(c.Closes, vb)
+	if c.openNow != nil {
+		c.openNow[vb] = false
+	}
 	ob := c.Observers[vb]
 	end := c.EndOnClose
 	c.mu.Unlock()
@@ -271,6 +298,8 @@ type Store struct {
 	Gate     bool // block in Save until Release
 	Trace    *Trace
 	FileLike bool // Load behaves like the file backend with an existing file: only the stored documents, exist = true
+	Loads    int
+	OnLoad   func(n int) // called at the start of the n-th Load (1-based), before the store is read, outside its lock
 }
 
 func NewStore() *Store {
@@ -375,6 +404,13 @@ func (s *Store) InFlight() bool {
 }
 
 func (s *Store) Load(vbIds []uint16, bucketUUID string) (*wrapper.ConcurrentSwissMap[uint16, *models.CheckpointDocument], bool, error) {
+	s.mu.Lock()
+	s.Loads++
+	n, hook := s.Loads, s.OnLoad
+	s.mu.Unlock()
+	if hook != nil {
+		hook(n)
+	}
 	s.mu.Lock()
 	defer s.mu.Unlock()
 	if s.LoadErr != nil {
